@@ -29,7 +29,7 @@ Definition wf_case (c : case) : bool :=
       (0 <? budget) && (0 <? chunk) && w3_all ps_in pre && w3_all ps_in post && opol_wf pol
       && in_u32 f && (f + Z.of_nat n <=? u32_max) && b_wf n b1 && b_wf n b2 && b_wf n b3
       && (if real then (budget =? PRUNING_DEPTH) && (chunk =? CHUNK_SIZE) else true)
-  | CRoots pre _ post _ _ _ _ => w3_all ps_in pre && w3_all ps_in post
+  | CRoots pre _ post _ _ _ _ _ => w3_all ps_in pre && w3_all ps_in post
   | CTcs pre blocks mn target sizes _ post _ _ _ _ =>
       w3_all ps_in pre && w3_all ps_in post && forallb in_u32 blocks && in_u32 target
       && (let '(a, b, c) := sizes in (0 <=? a) && (0 <=? b) && (0 <=? c))
